@@ -20,3 +20,8 @@ def _walk(desc):
 
 def never(case, msg):
     return False
+
+
+def pickle_protocol_below_2(case, msg):
+    """pickle.dumps(treespec, protocol=0|1) raises TypeError('cannot pickle ...') (pybind11 pickling needs protocol >= 2)"""
+    return isinstance(case, dict) and case.get('proto') in (0, 1) and 'cannot pickle' in msg and 'TypeError' in msg
